@@ -461,7 +461,7 @@ def run_verus_unit(prop, unit, tier, report):
     j = None
     m = re.search(r"\{\s*\"(?:encountered-vir-error|verification-results|times-ms)\".*\}\s*$", out, re.S)
     try:
-        start = out.index("{\n")
+        start = re.search(r"^\{$", out, re.M).start()
         j = json.loads(out[start:out.rindex("}") + 1])
     except Exception:
         j = None
@@ -469,7 +469,15 @@ def run_verus_unit(prop, unit, tier, report):
     verified, errors = vr.get("verified"), vr.get("errors")
     smt_ms = ((j or {}).get("times-ms", {}) or {}).get("smt", {})
     # error diagnostics (rustc-style) precede the JSON
-    diags = re.findall(r"^error(?:\[E\d+\])?: (.*?)\n\s*--> (\S+?):(\d+):\d+", out, re.M)
+    diags = []
+    for blk in re.split(r"\n(?=error)", out):
+        m = re.match(r"error(?:\[E\d+\])?: (.*)", blk)
+        if not m:
+            continue
+        locs = re.findall(r"(?:-->|:::) (\S+?):(\d+):\d+", blk)
+        mine = [(f, l) for f, l in locs if os.path.basename(f) == os.path.basename(outfile)]
+        f, line = (mine or locs or [("?", "0")])[0]
+        diags.append((m.group(1).strip(), f, line))
     vir_err = (j or {}).get("encountered-vir-error") or (j or {}).get("encountered-error")
     rec = {"unit": unit["name"], "harness": "verus:" + unit["name"], "short": unit["name"], "kind": "property",
            "clause": unit.get("clause", "Verus contracts on extracted functions"),
